@@ -17,6 +17,21 @@ CLAIMED = {
         "Unbounded theorems: __cmp__ returns only -1/0/1 for all trees; on well-formed trees it is 0 exactly when eq, antisymmetric and transitive; RCPBasicKeyLess is a strict weak order whose incomparability is eq; an ordered container filled by successive insertion is independent of insertion order. Tied by comparing the full __cmp__ and eq matrices of generated pools (model vs library) and by checking range, cmp=0<=>eq, antisymmetry on all pairs and transitivity on all triples of the library's own results.",
         "Trusted: as C01. Known finding (listed): NaN doubles compare as greater in both directions (excluded from the theorems by the well-formedness guard, with a refutation theorem).",
         "7 (C02)"),
+    "C05": (
+        "Rocq proof over an executable model of the Number double dispatch (Integer/Rational/Complex arithmetic, pow_number, pow_negint, powrat, canonicalisation) + exact correspondence of results against the rebuilt library",
+        "Unbounded theorems in Q(i): add, sub, mul, div and integer powers (either sign) of integers, rationals and Gaussian rationals of any size return exactly the mathematical result; results are normalised (lowest terms, positive denominator, Integer when the denominator is 1, real when the imaginary part is 0); x/0 = zoo and 0/0 = nan at every entry point; the square-and-multiply loop equals iterated multiplication. Tied by comparing canonical result dumps on palette pairs, boundary exponents and random multi-limb values; oracles in the driver recompute the Q(i) value with raw GMP.",
+        "Trusted: Coq kernel; extraction; GMP's arithmetic as external; hand transcription validated by correspondence; theorems list the four Reals axioms only because the shared model file contains Flocq float branches; known finding (listed): Rational / Complex at the Number level throws NotImplementedError (pinned by the repository's own test).",
+        "7 (C05)"),
+    "C06": (
+        "Rocq proof over the complete 7x7 kind-pair dispatch table with unbounded values (doubles via Flocq binary64 on bit patterns) + exhaustive palette correspondence",
+        "Theorems for every ordered pair of number kinds and all values (every double bit pattern): a+b = b+a and a*b = b*a through Number methods, NaN absorbs every operation, the infinity rules (oo + -oo, 0*oo, sign rule, oo/oo), float-never-exact (guarded, with the refuted class RealDouble * Integer 0), Basic-level mul commutativity, Basic-level add commutativity guarded (refuted: zero shortcut with a float operand). Tied exhaustively over all ordered pairs of a 43-value palette x {add, sub, mul, div, pow} through Number methods and Basic add/mul.",
+        "Trusted: Coq kernel; Flocq's binary64 as the meaning of IEEE arithmetic (Reals axioms reported); std::pow / libgcc complex division not modelled (skipped in correspondence, oracles still run); known findings listed by key.",
+        "7 (C06)"),
+    "C23": (
+        "Rocq proof over an executable model of GaloisFieldDict (all operations incl. the division loops with checked indices, gcd, pow_mod, compose_mod, square-free and factorisation routines with explicit random streams) + exact correspondence of coefficient vectors",
+        "Unbounded theorems for every prime p and all polynomials: constructors, +, -, *, negate, shifts, pow, pow_mod, monic, diff, eval, compose_mod are canonical and equal mod p to schoolbook arithmetic; division with remainder (f = q g + r, deg r < deg g, uniqueness, no out-of-range access, zero divisor throws); gcd terminates and is the monic greatest common divisor; lcm partial. Factorisation/square-free results are covered by exact correspondence (mirrored random streams) and by driver oracles (product, monic, brute-force/Rabin irreducibility) only, not by theorems.",
+        "Trusted: Coq kernel; extraction; hand transcription validated by correspondence; known finding (listed): modulus >= 2^64 truncated in the Frobenius code.",
+        "7 (C23)"),
     "C28": (
         "Rocq proof over an executable model of logic.cpp (and_or, logical_not/xor/nand/nor/xnor, piecewise, contains, relational constructors, subs on boolean trees; std::set order = modelled RCPBasicKeyLess) + exact correspondence of result trees",
         "Unbounded theorems: for every formula of the fragment (relationals over symbols and exact rationals, membership in intervals/finite sets, closed under Not/And/Or/Xor), every argument list (hence every iteration order) and every assignment of rationals to the symbols, logical_and/or/nand/nor/xor/xnor/not, piecewise construction, Contains simplification and substitution preserve the truth value. Tied by reproducing the library's result tree exactly (container order included) on generated formulas; a truth-table oracle complete up to order type runs on the library's own results.",
@@ -32,6 +47,11 @@ CLAIMED = {
         "Unbounded theorems for every integer matrix: every run that ends returns exactly the minimal non-zero non-negative solutions of A x = 0, each once (soundness, antichain, completeness by the Contejean-Devie argument), never indexes outside its arrays (stack-depth bound proved as an invariant), and more fuel does not change the result. Termination is proved only on complete small universes (kernel sweep), so the theorems are conditional on the run ending. Tied by comparing the returned basis (in order) between model and library and by an independent brute-force Hilbert-basis oracle in the driver.",
         "Trusted: Coq kernel (vm_compute for the finite termination sweeps); extraction; hand transcription validated by correspondence; termination for all matrices not proved; a non-empty basis argument on entry is outside the property (refutation theorem documents that the function does not clear it).",
         "7 (C46)"),
+    "C29": (
+        "Rocq proof over an executable model of Lt/Le/Gt/Ge/Eq/Ne on two numbers (difference via Number::sub, sign tests; doubles via Flocq) + exhaustive palette correspondence",
+        "Theorems for all real numbers of all kinds and values: Lt/Le agree with the numeric order (unguarded on integers, rationals and +-oo; guarded where an exact operand is converted to double, with refutation witnesses), Le(a,b) = not Lt(b,a), Ge/Le and Gt/Lt dualities, Eq symmetric, Ne = not Eq. Tied over all ordered pairs of a 32-value real palette x 6 relations plus throwing operands; the driver compares against exact rational order computed with GMP.",
+        "Trusted: as C06; known findings (listed): comparisons where an exact operand truncates to double (Lt(RealDouble(2^53), 2^53+1)), infinite double vs +-oo.",
+        "7 (C29)"),
     "C33": (
         "Rocq proof over an executable state-machine model of Sieve (32-bit arithmetic, observable out-of-range accesses) + correspondence of histories against the rebuilt library",
         "Unbounded theorems (every history, every limit < 2^31, every sieve size 1..2^15 KB): no array access leaves its array, every loop terminates, generate_primes returns exactly the primes up to the limit in increasing order, iterators return the prime sequence without gaps or repeats. The model is tied to the code by running generated histories on the extracted model and on the library rebuilt from /repo and comparing every output.",
